@@ -41,6 +41,15 @@ Example ex_grpc_error :
   exit_exn (r_end r) = Some (EGRPC 5 (Some (s2z "nf"))) /\ accepted (r_out r) = true.
 Proof. vm_compute. repeat split. Qed.
 
+(* D42 (repaired): unary handler raises GRPCError(OK) without a message: UNKNOWN, exactly one terminal;
+   the hypotheses of C03_grpc_ok_without_message_status hold *)
+Example ex_grpc_ok_without_message :
+  let r := run_call known_paths good_request (std_env UU ENone) (mkP [Recv] (Fin (RaiseGRPC status_ok None)) Honour) in
+  exit_exn (r_end r) = Some (EGRPC status_ok None) /\ reset_kind (r_end r) = false /\
+  trail_done (r_pre r) = false /\ cancel_done (r_pre r) = false /\ msg_done (r_pre r) = false /\
+  r_out r = [FHeaders 200 true (Some 2) (Some internal_msg) true].
+Proof. vm_compute. repeat split. Qed.
+
 (* unary handler returns without a message: UNKNOWN, not OK *)
 Example ex_unary_missing :
   final_status (r_out (run_call known_paths good_request (std_env UU ENone) (mkP [Recv] (Fin Return) Honour)))
